@@ -338,6 +338,22 @@ impl Variant {
         }
     }
 
+    /// Divides like the `/` operator of the language does: the result is always
+    /// a floating point value (a double if a double or long operand is involved,
+    /// a single otherwise), even if it happens to be a whole number.
+    pub fn divide_fp(self, other: Self) -> Result<Self, VariantError> {
+        let is_double = matches!(self, Self::VDouble(_) | Self::VLong(_))
+            || matches!(other, Self::VDouble(_) | Self::VLong(_));
+        self.divide(other).map(|result| match result {
+            Self::VInteger(i) if is_double => Self::VDouble(i as f64),
+            Self::VInteger(i) => Self::VSingle(i as f32),
+            Self::VLong(l) if is_double => Self::VDouble(l as f64),
+            Self::VLong(l) => Self::VSingle(l as f32),
+            Self::VSingle(f) if is_double => Self::VDouble(f as f64),
+            _ => result,
+        })
+    }
+
     pub fn modulo(self, other: Self) -> Result<Self, VariantError> {
         let round_left = self.round()?;
         let round_right = other.round()?;
